@@ -7,7 +7,8 @@ Functions under contract (VCs generated from their real source):
   diffractive_imaging.ptychography  : Ptychography.reconstruct (prologue: the constraints passed to THIS call are in force, also after its reset)
   diffractive_imaging.probe_models  : ProbeBase.set_initial_probe (history pre-state), ProbeConstraints._probe_orthogonalization_constraint,
                                       ProbePixelated._apply_weights, ProbePixelated.initial_probe_weights (setter)
-Not under contract (bounded stand-in only): the 6-line dispatch ProbeConstraints.apply_hard_constraints / ProbePixelated.probe.
+                                      ProbeConstraints.apply_hard_constraints (dispatcher), ProbePixelated.probe, ProbeDIP.probe
+                                      (stack mode count and declared num_probes are independent symbols)
 
 Object constraints are verified pointwise over ONE GENERIC PIXEL of a tensor of symbolic shape (complex entries as (re, im);
 the global mean phase is the Sigma-term the code computes, i.e. a free real).  The probe functions are verified in an abstract
@@ -529,7 +530,41 @@ def gs_havoc_list(s):
         s.env.assign(n, new)
 
 
+def gs_post(P, R, n, H, SG, TAU, a, b, wrap=lambda t: t):
+    """the orthogonalisation postconditions for input stack P and output stack R at mode indices a, b"""
+    ra, rb = R.fn(a), R.fn(b)
+    pr, pi_ = ip(ra, rb)
+    na, nb = ip(ra, ra)[0], ip(rb, rb)[0]
+    src = P.fn(SG(a))
+    return [
+        ("modes-mutually-orthogonal", wrap(implies(AND(H, a != b), AND(pr == 0, pi_ == 0)))),
+        ("mode-intensity-restored:|out[k]|^2=|in[sigma(k)]|^2", wrap(implies(H, na == ip(src, src)[0]))),
+        ("sigma-is-a-permutation(same-multiset-of-intensities)", wrap(AND(SG(a) >= 0, SG(a) < n, TAU(SG(a)) == a, TAU(a) >= 0, TAU(a) < n, SG(TAU(a)) == a))),
+        ("intensities-descending", wrap(implies(a < b, na >= nb))),
+    ]
+
+
+def gs_result(ctx, s):
+    """call sites: a fresh stack with ghost sigma / tau / H (H = no residual norm was clamped)"""
+    n = s.start_probe.lead[0]
+    R = cm.fresh_stack(ctx, "orthogonalised", n)
+    nm = ctx.fresh_name("gs_sigma")
+    R.gs_ghost = NS(H=z3.Bool(ctx.fresh_name("gs_no_residual_clamped")), SG=z3.Function(nm, z3.IntSort(), z3.IntSort()),
+                    TAU=z3.Function(nm + "_inv", z3.IntSort(), z3.IntSort()), src=s.start_probe)
+    return R
+
+
+def _quant2(n):
+    a, b = I("a!gq"), I("b!gq")
+    return a, b, (lambda t: forall([a, b], implies(AND(a >= 0, a < n, b >= 0, b < n), t)))
+
+
 def gs_ensures(s):
+    if s.mode != "verify":
+        R, g = s.result, s.result.gs_ghost
+        n = lift(s.start_probe.lead[0])
+        a, b, wrap = _quant2(n)
+        return gs_post(s.start_probe, R, n, g.H, g.SG, g.TAU, a, b, wrap)
     res = s.result
     n = lift(s.n)
     g = s.ctx.ghost
@@ -558,7 +593,7 @@ def gs_ensures(s):
 
 
 C_GS = Contract(
-    f"{PM}:ProbeConstraints._probe_orthogonalization_constraint", setup=gs_setup, ensures=gs_ensures,
+    f"{PM}:ProbeConstraints._probe_orthogonalization_constraint", setup=gs_setup, ensures=gs_ensures, result=gs_result,
     snapshot=lambda s: s.start_probe.writes,
     loops={0: LoopSpec(inv=gs_outer_inv, havoc={"<the list being appended to>": gs_havoc_list}),
            1: LoopSpec(inv=gs_inner_inv)},
@@ -662,6 +697,10 @@ def ipw_ensures(s):
     if s.wmode == "given":
         w = [rr(s.weights.fn(z3.IntVal(k))) for k in range(n)]
         out.append(("relative-weights-as-requested", AND(*[vals[k] * sum(w) == w[k] for k in range(n)])))
+        if n >= 2:
+            two_nonzero = OR(*[AND(w[i] > 0, w[j] > 0) for i in range(n) for j in range(i + 1, n)])
+            out.append(("explicit-weights-with>=2-non-zero-entries:stored-weights-sum-to-1-and-keep-the-requested-ratios",
+                        implies(two_nonzero, AND(sum(vals) == 1, *[vals[i] * w[j] == vals[j] * w[i] for i in range(n) for j in range(i + 1, n)]))))
     else:
         out.append(("default:0.02-per-extra-mode", AND(*[vals[k] == z3.RealVal("1/50") for k in range(1, n)])))
     return out
@@ -875,8 +914,27 @@ def _hermetic(base):
     return cls
 
 
+def rc_base_setup(ctx):
+    """the reconstruction object of the prologue (own copy, so that C09's evolving epoch contract does not move this one):
+    seeded / unseeded object with a used generator (C09.reset_setup), opaque dataset, num_iters = 0"""
+    from .common import opt_int
+
+    s = c09.reset_setup(ctx)
+    N = ctx.fresh("num_gpts", "int")
+    ctx.assume(N.t >= 1)
+    o = Obj(c09.PTC, dict(s.self.fields))
+    o.fields.update(_dset=c09.OpaqueWith("dset", num_gpts=N), _val_ratio=0.0, _val_mode="grid", _batch_size=N, _verbose=0, verbose=0,
+                    _iter_losses=[], _iter_val_losses=[])
+    s.self = o
+    s.reset = ctx.fresh("reset", "bool")
+    s.batch_size = opt_int(ctx, "batch_size", lo=1)
+    s.num_iters = 0
+    s.N = N
+    return s
+
+
 def rc_setup(ctx):
-    s = c09.recon_setup(ctx)
+    s = rc_base_setup(ctx)
     o = s.self
     ocls, pcls = _hermetic(OP), _hermetic(PP)
     # history: both models were configured by earlier calls to arbitrary values
@@ -951,7 +1009,124 @@ def install_recon(reg):
     reg.models[torch.Generator] = lambda interp, device=None: c09._TorchGen(device)
     reg.ctor_models[torch.Generator] = lambda interp, device=None: c09._TorchGen(device)
 
-CONTRACTS = AHC_ALL + [C_OBJPROP, C_TOM, C_GS, C_AW, C_IPW] + BOOKKEEPING + [C_SIP, C_RECON10]
+# ================================================================================================================
+# 8. the dispatcher ProbeConstraints.apply_hard_constraints and the public `.probe` of the probe models
+# ================================================================================================================
+# The number of modes of the STACK and the model's DECLARED num_probes are independent symbols: whenever orthogonalize_probe is on,
+# the returned stack satisfies the orthogonalisation postconditions (for the stack it was given).
+PDIP = resolve(f"{PM}:ProbeDIP")
+
+
+def _probe_obj(ctx, cls, ortho, **extra):
+    declared = ctx.fresh("declared_num_probes", "int")
+    ctx.assume(declared.t >= 1)
+    cons = dict(CLASS_DEFAULTS[PP])
+    cons.update(orthogonalize_probe=ortho, center_probe=False)
+    return Obj(cls, dict(_constraints=cons, _num_probes=declared, **extra)), declared
+
+
+def _stack_and_indices(ctx, name="probe"):
+    n = ctx.fresh("stack_modes", "int")
+    ctx.assume(n.t >= 1)
+    assume_ip_axioms(ctx)
+    P = cm.fresh_stack(ctx, name, n)
+    a0, b0 = ctx.fresh("a0", "int"), ctx.fresh("b0", "int")
+    for x in (a0, b0):
+        ctx.assume(AND(x.t >= 0, x.t < n.t))
+    return P, n, a0, b0
+
+
+def disp_setup(ctx):
+    ortho = flag(ctx, "orthogonalize_probe")
+    me, declared = _probe_obj(ctx, PP, ortho)
+    P, n, a0, b0 = _stack_and_indices(ctx)
+    return NS(self=me, probe=P, n=n, a0=a0, b0=b0, ortho=ortho, declared=declared, case=f"orthogonalize={int(ortho)}")
+
+
+def probe_claims(raw, res, n, ortho, a, b, wrap=lambda t: t, tag=""):
+    """THE CLAUSE: with orthogonalize_probe on, the returned stack satisfies the orthogonalisation postconditions w.r.t. the raw
+    stack it was computed from; a stack that did NOT go through the orthogonalisation is judged as it is (identity permutation, no
+    clamp hypothesis) - so skipping the work is only acceptable where the claims hold anyway (one mode)."""
+    if not isinstance(res, AT) or len(res.lead) != 1:
+        return [(f"{tag}returns-a-stack-of-modes", False)]
+    out = [(f"{tag}number-of-modes-is-the-stack's", lift(res.lead[0]) == n)]
+    if not ortho:
+        return out + [(f"{tag}orthogonalisation-off=>raw-stack-returned", res is raw or cm.at_same(res, raw))]
+    g = getattr(res, "gs_ghost", None)
+    if g is not None and (g.src is raw or cm.at_same(g.src, raw)):
+        H, SG, TAU = g.H, g.SG, g.TAU
+    else:
+        H, SG, TAU = z3.BoolVal(True), (lambda t: t), (lambda t: t)
+    return out + [(f"{tag}orthogonalize_probe-on=>" + l, t) for l, t in gs_post(raw, res, n, H, SG, TAU, a, b, wrap)]
+
+
+def disp_bind(s):
+    if not hasattr(s, "ortho"):
+        s.ortho = bool(s.self.fields["_constraints"]["orthogonalize_probe"])
+        if s.self.fields["_constraints"].get("center_probe"):
+            raise V.OutOfSubset("center_probe is outside the C10 contracts")
+    return s
+
+
+def disp_ensures(s):
+    disp_bind(s)
+    n = lift(s.probe.lead[0])
+    if s.mode == "verify":
+        return probe_claims(s.probe, s.result, n, s.ortho, lift(s.a0), lift(s.b0)) + [("frame:raw-stack-not-written", s.probe.writes == s.old)]
+    a, b, wrap = _quant2(n)
+    return probe_claims(s.probe, s.result, n, s.ortho, a, b, wrap)
+
+
+def disp_result(ctx, s):
+    disp_bind(s)
+    if not s.ortho:
+        return s.probe
+    t = NS(start_probe=s.probe)
+    return gs_result(ctx, t)
+
+
+C_DISP = Contract(f"{PM}:ProbeConstraints.apply_hard_constraints", setup=disp_setup, ensures=disp_ensures, result=disp_result,
+                  snapshot=lambda s: s.probe.writes)
+
+
+def pprobe_setup(ctx):
+    ortho = flag(ctx, "orthogonalize_probe")
+    P, n, a0, b0 = _stack_and_indices(ctx, "raw_probe")
+    me, declared = _probe_obj(ctx, PP, ortho, _probe=P)
+    return NS(self=me, raw=P, n=n, a0=a0, b0=b0, ortho=ortho, case=f"orthogonalize={int(ortho)}")
+
+
+def pprobe_ensures(s):
+    return probe_claims(s.raw, s.result, lift(s.n), s.ortho, lift(s.a0), lift(s.b0), tag="probe:")
+
+
+C_PPROBE = Contract(f"{PM}:ProbePixelated.probe.fget", setup=pprobe_setup, ensures=pprobe_ensures)
+
+
+class _Network:
+    """the DIP network: an opaque callable returning a batch whose first element is a stack of modes (its channel count is the
+    network's business - nothing ties it to the model's num_probes attribute)"""
+
+    _pyvc_value = True
+
+    def __init__(self, out):
+        self.out = out
+
+    def __call__(self, x):
+        return [self.out]
+
+
+def dip_setup(ctx):
+    ortho = flag(ctx, "orthogonalize_probe")
+    P, n, a0, b0 = _stack_and_indices(ctx, "network_output")
+    me, declared = _probe_obj(ctx, PDIP, ortho, _model=_Network(P), _model_input="model-input")
+    return NS(self=me, raw=P, n=n, a0=a0, b0=b0, ortho=ortho, case=f"orthogonalize={int(ortho)}")
+
+
+C_DIPPROBE = Contract(f"{PM}:ProbeDIP.probe.fget", setup=dip_setup, ensures=pprobe_ensures)
+PROBE_DISPATCH = [C_DISP, C_PPROBE, C_DIPPROBE]
+
+CONTRACTS = AHC_ALL + [C_OBJPROP, C_TOM, C_GS, C_AW, C_IPW] + BOOKKEEPING + [C_SIP, C_RECON10] + PROBE_DISPATCH
 
 # ================================================================================================================
 # property-level lemmas (from the contract statements alone)
@@ -1557,15 +1732,17 @@ def rt_recon(inp):
 
 
 def fam_recon(tier="quick", seed=0):
+    it = 1 if tier == "quick" else 2
     for reset in (True, False):
-        for S_ in (2, 1):
-            yield dict(S=S_, reset=reset, req={"object": {"identical_slices": True}}, seed=seed)
-            yield dict(S=S_, reset=reset, req={"object": {"identical_slices": True, "apply_fov_mask": True}, "probe": {"orthogonalize_probe": False}},
-                       prior={"object": {"identical_slices": False}}, seed=seed)
-        yield dict(S=2, reset=reset, typ="potential", req={"object": {"identical_slices": True, "positivity": True}}, prior={"object": {"positivity": False}}, seed=seed)
-        yield dict(S=2, reset=reset, req={"probe": {"orthogonalize_probe": True}}, seed=seed)
-        yield dict(S=1, reset=reset, req={}, seed=seed)
-        yield dict(S=1, reset=reset, req={"objekt": {"identical_slices": True}}, seed=seed)
+        yield dict(S=2, reset=reset, req={"object": {"identical_slices": True}}, seed=seed, iters=it)
+        yield dict(S=2, reset=reset, req={"object": {"identical_slices": True, "apply_fov_mask": True}, "probe": {"orthogonalize_probe": False}},
+                   prior={"object": {"identical_slices": False}}, seed=seed, iters=it)
+        if tier != "quick":
+            yield dict(S=1, reset=reset, req={"object": {"identical_slices": True}}, seed=seed, iters=it)
+            yield dict(S=2, reset=reset, typ="potential", req={"object": {"identical_slices": True, "positivity": True}}, prior={"object": {"positivity": False}}, seed=seed, iters=it)
+            yield dict(S=2, reset=reset, req={"probe": {"orthogonalize_probe": True}}, seed=seed, iters=it)
+            yield dict(S=1, reset=reset, req={}, seed=seed, iters=it)
+    yield dict(S=1, reset=True, req={"objekt": {"identical_slices": True}}, seed=seed, iters=it)
 
 
 def rc_concretize(ev):
@@ -1621,6 +1798,65 @@ def fam_probe_reinit(tier="quick", seed=0):
 C_SIP.rt, C_SIP.rt_family = rt_probe_reinit, fam_probe_reinit
 
 
+def rt_dispatch(inp):
+    """public apply_hard_constraints / .probe on the real ProbePixelated: the STACK has `n` modes, the model DECLARES `declared`."""
+    import numpy as np
+    import torch
+    from quantem.diffractive_imaging.probe_models import ProbePixelated
+
+    n, declared, H, W = inp["n"], inp["declared"], inp["H"], inp["W"]
+    arr = _probe_stack(n, H, W, inp.get("corr", 0.8), inp.get("seed", 0)).astype(np.complex128)
+    order = np.argsort((np.abs(arr) ** 2).sum(axis=(1, 2)))          # ascending input order: the sort has something to do
+    arr = arr[order]
+    problems = []
+    try:
+        p = ProbePixelated.from_array(arr[:declared].copy() if declared <= n else np.concatenate([arr] * 2)[:declared].copy(), dtype=torch.complex128)
+        p.constraints = {"orthogonalize_probe": bool(inp["ortho"]), "center_probe": False}
+        st = torch.tensor(arr, dtype=torch.complex128)
+        if inp.get("via") == "probe" and declared == n:
+            with torch.no_grad():
+                p._probe.data = st.clone()
+            out = p.probe.detach()
+        else:
+            out = p.apply_hard_constraints(st.clone()).detach()
+    except Exception as e:  # an unexpected exception of the real function is a failure, not a checker fault
+        return dict(violated=True, observed=f"{type(e).__name__}: {e}", expected="a constrained stack")
+    if tuple(out.shape) != tuple(st.shape):
+        return dict(violated=True, observed=f"shape {tuple(out.shape)}", expected=str(tuple(st.shape)))
+    if not inp["ortho"]:
+        if not torch.equal(out, st):
+            problems.append("orthogonalisation off but the stack was changed")
+    else:
+        o = out.reshape(n, -1)
+        G = o.conj() @ o.T
+        nr = torch.sqrt(G.diagonal().real)
+        for a in range(n):
+            for b in range(a + 1, n):
+                if float(G[a, b].abs()) > 1e-9 * float(nr[a] * nr[b]):
+                    problems.append(f"normalised overlap of modes {a},{b}: {float(G[a, b].abs() / (nr[a] * nr[b])):.3g} (stack has {n} modes, model declares num_probes={declared})")
+        iout = (out.abs() ** 2).sum(dim=(-2, -1)).numpy()
+        iin = np.sort((np.abs(arr) ** 2).sum(axis=(1, 2)))[::-1]
+        if np.any(np.diff(iout) > 1e-9 * iout.max()):
+            problems.append(f"intensities not descending: {iout.tolist()}")
+        if not np.allclose(np.sort(iout)[::-1], iin, rtol=1e-9):
+            problems.append("intensity multiset changed")
+    return dict(violated=bool(problems), observed="; ".join(problems[:3]) or "ok",
+                expected="orthogonalize_probe on: mutually orthogonal, descending, same intensities - for the stack that was given")
+
+
+def fam_dispatch(tier="quick", seed=0):
+    for n, declared in ((1, 1), (2, 2), (3, 3), (3, 1), (2, 1), (4, 2), (2, 3), (1, 2)):
+        for ortho in (True, False):
+            for via in ("call", "probe"):
+                yield dict(n=n, declared=declared, ortho=ortho, via=via, H=3, W=4, corr=0.8, seed=seed + n)
+
+
+for _c in PROBE_DISPATCH:
+    _c.rt, _c.rt_family = rt_dispatch, fam_dispatch
+    _c.concretize = lambda ev: dict(n=int(min(max(ev("stack_modes", 3) or 3, 1), 4)), declared=int(min(max(ev("declared_num_probes", 1) or 1, 1), 4)),
+                                    ortho=bool(ev("orthogonalize_probe", True)), via="call", H=3, W=4, corr=0.8, seed=2)
+
+
 BOUNDED = [
     Bounded.from_rt("object constraints on random tensors (all configurations, non-triaged claims)", rt_obj, fam_obj,
                     "shapes <=3x3x2 (<=4x5x4 thorough), 3 object types, 4 mask kinds, fov/tie/positivity/baseline flags; float64"),
@@ -1632,9 +1868,11 @@ BOUNDED = [
     Bounded.from_rt("_apply_weights intensity / weight normalisation", rt_aw, fam_aw, "1..5 modes, images 3x3 / 4x6, 3 mean intensities, one zero weight"),
     Bounded.from_rt("initial_probe_weights setter", rt_ipw, fam_ipw, "1..5 modes, default / given / wrong-length"),
     Bounded.from_rt("reconstruct(constraints=...) on a toy problem: this call's constraints are in force for its epochs", rt_recon, fam_recon,
-                    "6x6-scan toy problem, 1 / 2 slices, reset on/off, object / probe / empty / invalid requests, 2 iterations"),
+                    "6x6-scan toy problem, 2 slices (1 / 2 thorough), reset on/off, object (+ probe / empty thorough) / invalid requests, 1 iteration (2 thorough)"),
     Bounded.from_rt("probe model initialised repeatedly with different mean intensities", rt_probe_reinit, fam_probe_reinit,
                     "1..3 modes, 4x5 images, 1..3 consecutive initialisations"),
+    Bounded.from_rt("public apply_hard_constraints / .probe with a stack whose mode count differs from the declared num_probes", rt_dispatch, fam_dispatch,
+                    "stacks of 1..4 modes on models declaring 1..3 probes, orthogonalisation on/off, direct call and .probe"),
     Bounded.from_rt("multi-model history: configuring one model leaves the others and the class defaults alone", rt_history, fam_history,
                     "two + one fresh model per case; object models (3 types, 1 / 3 slices, setter and add_constraint) and probe models (1..3 modes)"),
 ]
@@ -1661,7 +1899,7 @@ ASSUMPTIONS = [
     "Ptychography.reconstruct: only the prologue is under contract (num_iters = 0; the state reached is the state in which the epoch loop starts); optimiser / scheduler / dataset collaborators, model reset() and reset_optimizer() are opaque with an ASSUMED frame (they do not touch constraint dicts); SimpleBatcher.__init__, _reset_rng and compute_propagator_arrays are used through the contracts of C09",
     "ProbeBase.set_initial_probe is verified from a pre-state that already holds another mean intensity / roi_shape (history); the chain ProbePixelated.set_initial_probe -> _apply_random_phase_shifts -> _apply_weights is composed by the bounded re-initialisation check, not by proof",
     "probe center-of-mass constraint, random phase shifts and ProbeParametric/ProbeDIP/ObjectDIP wrappers are outside the claim",
-    "the dispatch ProbeConstraints.apply_hard_constraints / ProbePixelated.probe (orthogonalize_probe switch) is covered by a bounded run-time check only, not by proof",
+    "dispatcher / .probe contracts: center_probe is off (the centre-of-mass shift is outside the claim); the DIP network is an opaque callable whose output stack has its own mode count; ProbeParametric.probe (same one-line shape) is not under contract",
     "two literal claims are NOT met by the unchanged code and are reported as known findings (pure_phase amplitude m^2 under the FOV mask; complex amplitude not idempotent under a fractional FOV mask); what is proved in their place is stated in the obligations next to them",
     "the amplitude claims (<= 1, = 1, idempotence) are not made for tied multi-slice objects (identical_slices with more than one slice): the property's quantifier says slice tying is only claimed to tie slices; for that case the check proves identical slices and result = slice mean of the untied constrained object (a pure_phase object tied over several slices has amplitude |mean of unit phasors| <= 1 - observation, not a finding)",
 ]
